@@ -11,7 +11,9 @@ RULE = ('constructor matrix: source in {plain str, ANSI-coded str, AnsiString, A
         '(non-in-place form, on a copy) and to its AnsiStr twin, for every method the two classes share, comparing text, '
         'per-character settings, all 8 renderings, format() under several specs and result types after every step; scalar '
         'queries compared too. Non-trivial = constructor from a formatted object plus settings, or >=2 steps on a value '
-        'with >=2 change points; distinct by case.')
+        'with >=2 change points; distinct by case. Scalar queries are called with argument variants (encode with 6 codec / error '
+        'handler pairs, bounds, tuples) and compared by value or exception type; sub-check twin_raw_text runs the twin on values '
+        'whose base text contains escape sequences.')
 ASSUMPTIONS = ['in-place-only operations of AnsiString (assign_str, set_ansi_str, copy) have no AnsiStr counterpart and are not twinned']
 
 CFG = gen.Cfg(esc=True, odd=0.15, invalid=True, incomplete=False, max_ops=4, cls_s=0.0)
